@@ -186,6 +186,8 @@ class ParseModel(object):
         self.decls = cxx.load(repo)
         self.ps = self.decls['parse_sentence']
         self.env = cxx.Env(self.ps)
+        self.env.functions = {k[3:]: v for k, v in self.decls.items() if k.startswith('fn:')}
+        self.env.alias_inline = True
         self.item_fields = cxx.fields_of(self.decls['cell_item'])
         self.result_fields = cxx.fields_of(self.decls['combinator_result'])
         self.config_fields = cxx.fields_of(self.decls['config'])
@@ -357,25 +359,88 @@ class ParseModel(object):
                 continue
             if len(n.kids) != 2:
                 raise AnalysisError('%s:%s agenda push with %d arguments' % (H, n.line, len(n.kids) - 1))
-            arg = term(n.kids[1], env)
-            if arg[0] == 'ctor' and len(arg[2]) == 1:
-                arg = arg[2][0]
-            if arg[0] != 'init':
-                # not analysable as a record literal: remember it; the per-kind floors turn this into an
-                # ANALYSIS-ERROR unless a rule (e.g. item immutability) already explains it as a violation
-                self.opaque_pushes.append((n, arg))
+            # a push inside a local helper lambda is instantiated once per call of that lambda
+            lam_owner = None
+            for a in n.ancestors():
+                if a.kind == 'LambdaExpr':
+                    vd = a.parent
+                    while vd is not None and vd.kind != 'VarDecl':
+                        vd = vd.parent
+                    lam_owner = vd
+                    break
+            if lam_owner is None:
+                self._add_site(n, term(n.kids[1], env), cxx.context(n, env, stop=self.body), {})
                 continue
-            vals = list(arg[1])
-            if len(vals) > len(self.item_fields):
-                raise AnalysisError('%s:%s initialiser list longer than cell_item' % (H, n.line))
-            while len(vals) < len(self.item_fields):
-                vals.append(LIT(0))
-            site = Site(n, dict(zip(self.item_fields, vals)), cxx.context(n, env, stop=self.body))
-            self._classify(site)
-            self.sites.append(site)
+            op = env.lambdas.get(lam_owner.name)
+            if op is None:
+                self.opaque_pushes.append((n, ('var', lam_owner.name)))
+                continue
+            lenv = cxx.Env(op)
+            lenv.functions = env.functions
+            lenv.alias_inline = True
+            lenv.lambdas = env.lambdas
+            params = [p.name for p in cxx.params_of(op)]
+            inner_arg = term(n.kids[1], lenv)
+            inner_ctx = cxx.context(n, lenv, stop=cxx.body_of(op))
+            calls = []
+            for c in self.ps.find('CXXOperatorCallExpr'):
+                if len(c.kids) >= 2 and strip(c.kids[0]).ref == 'operator()' and strip(c.kids[1]).kind == 'DeclRefExpr' \
+                        and strip(c.kids[1]).ref == lam_owner.name and not any(a is op for a in c.ancestors()):
+                    calls.append(c)
+            if not calls:
+                continue        # a helper that is never called pushes nothing
+            for c in calls:
+                args = [term(a, env) for a in c.kids[2:]]
+                if len(args) != len(params):
+                    raise AnalysisError('%s:%s call of %s with %d arguments' % (H, c.line, lam_owner.name, len(args)))
+                mp = {('var', p): a for p, a in zip(params, args)}
+                outer_ctx = cxx.context(c, env, stop=self.body)
+                ictx = []
+                for it in inner_ctx:
+                    if it[0] == 'if':
+                        ictx.append(('if', self._sub(it[1], mp), it[2], it[3]))
+                    elif it[0] == 'range':
+                        ictx.append(('range', it[1], self._sub(it[2], mp) if it[2] is not None else None, it[3]))
+                    elif it[0] == 'while':
+                        ictx.append(('while', self._sub(it[1], mp), it[2]))
+                    else:
+                        ictx.append(it)
+                self._add_site(n, self._sub(inner_arg, mp), outer_ctx + ictx, mp, line=c.line)
         self.by_kind = {}
         for s in self.sites:
             self.by_kind.setdefault(s.kind, []).append(s)
+
+    @staticmethod
+    def _sub(t, mp):
+        t = cxx.subst(t, mp)
+        # &x followed by member access: renormalise (param was a pointer, argument is &other)
+        def fix(x):
+            if not isinstance(x, tuple):
+                return x
+            x = tuple(fix(y) for y in x)
+            if x and x[0] == 'mem' and isinstance(x[1], tuple) and x[1] and x[1][0] in ('addr', 'deref'):
+                return ('mem', x[1][1], x[2])
+            return x
+        return fix(t)
+
+    def _add_site(self, n, arg, ctx, mp, line=None):
+        if arg[0] == 'ctor' and len(arg[2]) == 1:
+            arg = arg[2][0]
+        if arg[0] != 'init':
+            # not analysable as a record literal: remember it; the per-kind floors turn this into an
+            # ANALYSIS-ERROR unless a rule (e.g. item immutability) already explains it as a violation
+            self.opaque_pushes.append((n, arg))
+            return
+        vals = list(arg[1])
+        if len(vals) > len(self.item_fields):
+            raise AnalysisError('%s:%s initialiser list longer than cell_item' % (H, n.line))
+        while len(vals) < len(self.item_fields):
+            vals.append(LIT(0))
+        site = Site(n, dict(zip(self.item_fields, vals)), ctx)
+        if line is not None:
+            site.line = line
+        self._classify(site)
+        self.sites.append(site)
 
     def _classify(self, s):
         f = s.f
